@@ -888,7 +888,7 @@ fn fill(w: usize, gates: &[Sh<Gate>], item: &Payload, cols: &mut [Utf32String], 
     nucleo_verif_rt::point("fill.end");
 }
 
-fn expected_panic<R>(f: impl FnOnce() -> R) -> Result<R, String> {
+pub fn expected_panic<R>(f: impl FnOnce() -> R) -> Result<R, String> {
     match catch_unwind(AssertUnwindSafe(f)) {
         Ok(r) => Ok(r),
         Err(p) => {
@@ -1116,26 +1116,32 @@ impl Job for NucleoScript {
         // the snapshot/current-stream references are gone now; pool threads drain in the caller
     }
     fn post(&self, out: &mut Outcome) {
-        let rep = alloc::end_execution();
-        match ledger::final_check() {
-            Ok((created, drops)) => {
-                out.probes.insert("ledger.items_created", created);
-                out.probes.insert("ledger.drops", drops);
-            }
-            Err(e) => sim::record_violation("C11", "leak", e),
+        post_accounting(out);
+    }
+}
+
+/// End-of-execution accounting shared by the worlds that create payloads: drop ledger and
+/// matcher-column allocations (property C11).
+pub fn post_accounting(out: &mut Outcome) {
+    let rep = alloc::end_execution();
+    match ledger::final_check() {
+        Ok((created, drops)) => {
+            out.probes.insert("ledger.items_created", created);
+            out.probes.insert("ledger.drops", drops);
         }
-        out.probes.insert("alloc.tracked_column_strings", rep.tracked as u64);
-        let fill_panics = sim::with(|s| s.faults.get("F2.fill_panic").copied().unwrap_or(0));
-        if rep.double_free > 0 {
-            sim::record_violation("C11", "double-free", format!("{} matcher-column allocations were freed twice", rep.double_free));
-        }
-        if rep.leaked > 0 {
-            if fill_panics == 0 {
-                sim::record_violation("C11", "column-leak", format!("{} matcher-column allocations were never freed", rep.leaked));
-            } else {
-                // columns written by a fill callback before it panicked: information only
-                out.probes.insert("alloc.columns_leaked_by_panicking_fill", rep.leaked as u64);
-            }
+        Err(e) => sim::record_violation("C11", "leak", e),
+    }
+    out.probes.insert("alloc.tracked_column_strings", rep.tracked as u64);
+    let fill_panics = sim::with(|s| s.faults.get("F2.fill_panic").copied().unwrap_or(0));
+    if rep.double_free > 0 {
+        sim::record_violation("C11", "double-free", format!("{} matcher-column allocations were freed twice", rep.double_free));
+    }
+    if rep.leaked > 0 {
+        if fill_panics == 0 {
+            sim::record_violation("C11", "column-leak", format!("{} matcher-column allocations were never freed", rep.leaked));
+        } else {
+            // columns written by a fill callback before it panicked: information only
+            out.probes.insert("alloc.columns_leaked_by_panicking_fill", rep.leaked as u64);
         }
     }
 }
